@@ -1,11 +1,15 @@
 package gnogo
 
 import (
+	"crypto/sha256"
 	"fmt"
+	"os"
 	"regexp"
 	"sort"
 	"strings"
+	"sync"
 	"testing"
+	"time"
 
 	"pgregory.net/rapid"
 	"verif/vk"
@@ -25,19 +29,16 @@ func progExec(ctx *vk.Ctx, c progCase) error {
 	if len(c.Frags) == 0 {
 		return nil
 	}
-	goSrc, gnoSrc := render(c.Frags)
-	gr := runGo(goSrc)
-	if gr.CompileErr != "" {
-		infra("the Go toolchain rejects a generated program (generator defect):\n%s\n--- source\n%s", gr.CompileErr, numbered(goSrc))
-	}
-	if gr.RunErr != "" {
-		infra("the Go reference program crashed (generator defect):\n%s\n--- source\n%s", gr.RunErr, numbered(goSrc))
-	}
-	want, err := split(gr.Out, len(c.Frags))
-	if err != nil {
-		infra("Go reference output malformed: %v\n%s", err, gr.Out)
-	}
+	_, gnoSrc := render(c.Frags)
+	t0 := time.Now()
+	want := goReference(c.Frags)
+	goDur := time.Since(t0)
+	t0 = time.Now()
 	res := runGno(gnoSrc)
+	gnoDur := time.Since(t0)
+	if os.Getenv("C04_TIMING") != "" {
+		fmt.Printf("C04 timing: %d fragments, go build+run %.1fs, gno %.1fs\n", len(c.Frags), goDur.Seconds(), gnoDur.Seconds())
+	}
 	if res.Crash != "" {
 		if rest, ok := knownCrash(ctx, res.Crash, c.Frags); ok {
 			return progExec(ctx, progCase{Frags: rest})
@@ -140,6 +141,56 @@ func knownRejection(ctx *vk.Ctx, msg string, frags []Frag) ([]Frag, bool) {
 	return nil, false
 }
 
+// goReference returns Go's output of every fragment. Fragments are
+// independent functions, so their Go output does not depend on the batch:
+// outputs are cached per fragment source, and only the fragments not seen
+// before are compiled (one go build for all of them). This makes shrinking
+// steps that merely drop fragments free of toolchain runs.
+var (
+	goRefMu    sync.Mutex
+	goRefCache = map[[32]byte]string{}
+)
+
+func goReference(frags []Frag) []string {
+	goRefMu.Lock()
+	defer goRefMu.Unlock()
+	key := func(f Frag) [32]byte { return sha256.Sum256([]byte(f.Decl + "\x00" + f.Body)) }
+	var missing []Frag
+	seen := map[[32]byte]bool{}
+	for _, f := range frags {
+		k := key(f)
+		if _, ok := goRefCache[k]; !ok && !seen[k] {
+			seen[k] = true
+			missing = append(missing, f)
+		}
+	}
+	if len(missing) > 0 {
+		goSrc, _ := render(missing)
+		gr := runGo(goSrc)
+		if gr.CompileErr != "" {
+			infra("the Go toolchain rejects a generated program (generator defect):\n%s\n--- source\n%s", gr.CompileErr, numbered(goSrc))
+		}
+		if gr.RunErr != "" {
+			infra("the Go reference program crashed (generator defect):\n%s\n--- source\n%s", gr.RunErr, numbered(goSrc))
+		}
+		outs, err := split(gr.Out, len(missing))
+		if err != nil {
+			infra("Go reference output malformed: %v\n%s", err, gr.Out)
+		}
+		if len(goRefCache) > 20000 {
+			goRefCache = map[[32]byte]string{}
+		}
+		for i, f := range missing {
+			goRefCache[key(f)] = outs[i]
+		}
+	}
+	want := make([]string, len(frags))
+	for i, f := range frags {
+		want[i] = goRefCache[key(f)]
+	}
+	return want
+}
+
 // knownCrash handles VM crashes recorded as known findings, consulted only
 // when the crash text is exactly the recorded one: the fragments that
 // individually crash with it are dropped, the rest is still compared.
@@ -215,9 +266,9 @@ func numbered(src string) string {
 func TestC04_Programs(t *testing.T) {
 	vk.Run(t, vk.Spec[progCase]{
 		ID: "C04", Name: "TestC04_Programs",
-		Rule: "rapid: batch of 1..24 fragments from a typed grammar (integer arithmetic at every width, shifts, conversions, floats, strings/runes/bytes, slices with append/copy/reslice aliasing, arrays, maps, structs, pointers, methods and method values, embedding, interfaces, type switches and assertions, closures and per-iteration loop variables, defer/panic/recover, named results, labelled break/continue, goto, switch fallthrough, shadowing), rendered as one Go program (go build + run, go1.25) and one Gno program (GnoVM), compared fragment by fragment incl. panic class; non-trivial = some fragment exercises >=2 grammar categories; distinct by source hash",
+		Rule: "rapid: batch of 1..40 fragments from a typed grammar (integer arithmetic at every width, shifts, conversions, floats, strings/runes/bytes, slices with append/copy/reslice aliasing, arrays, maps, structs, pointers, methods and method values, embedding, interfaces, type switches and assertions, closures and per-iteration loop variables, defer/panic/recover, named results, labelled break/continue, goto, switch fallthrough, shadowing), rendered as one Go program (go build + run, go1.25) and one Gno program (GnoVM), compared fragment by fragment incl. panic class; non-trivial = some fragment exercises >=2 grammar categories; distinct by source hash",
 		Draw: func(rt *rapid.T) progCase {
-			n := rapid.IntRange(1, 24).Draw(rt, "nfrag")
+			n := rapid.IntRange(1, 40).Draw(rt, "nfrag")
 			var c progCase
 			for i := 0; i < n; i++ {
 				c.Frags = append(c.Frags, drawFrag(rt, i))
